@@ -2,7 +2,7 @@
 From Coq Require Import Lia Permutation.
 From InvokeVerif Require Import Model.CollModel Spec.C17Spec Spec.C10Spec Corr.C10Corr.
 From InvokeVerif Require Import Proofs.CollStrings Proofs.C17_merge Proofs.C17_path Proofs.C10_build
-     Proofs.C10_flat Proofs.C10_deep Proofs.C10_names.
+     Proofs.C10_flat Proofs.C10_deep Proofs.C10_names Proofs.C10_token.
 
 Definition dot_pfx (cn x : string) : string := (cn ++ "." ++ x)%string.
 
@@ -525,10 +525,14 @@ Qed.
 Lemma in_all_names l n : In n (all_names l) <-> exists pa, In pa l /\ In n (fst pa :: snd pa).
 Proof. unfold all_names. apply in_flat_map. Qed.
 
-Theorem deep_names_agree c n :
-  deep_guard c = true -> name_ok (c_auto_dash c) n (model_nobs c n) = true.
+(** inside the guard the parser is built, and only canonical names are accepted *)
+Lemma deep_parser c :
+  deep_guard c = true ->
+  exists r, parser_of c = Ok r /\
+            forall n p, preg_primary r n = Some p -> canonical (c_auto_dash c) n = true.
 Proof.
-  intros G. unfold deep_guard in G. rewrite !andb_true_iff in G.
+  intros G.
+  unfold deep_guard in G. rewrite !andb_true_iff in G.
   destruct G as [[[[[[Hu Hwf] Hcan] Hat] Hnd] Hcd] Hnn].
   apply nodupb_NoDup in Hnn. set (ad := c_auto_dash c) in *.
   pose proof (task_names_tn ad c Hu Hcan (prims_nodup _ Hnn)) as Htn.
@@ -558,7 +562,50 @@ Proof.
       apply (canonical_nonempty ad). apply Hcanon; exact Hin. }
   assert (akeys (map (fun x : ctx => (fst (fst x), snd x)) cs) = map fst (tn c)) as Hkeys.
   { unfold akeys. rewrite map_map. cbn [fst]. rewrite <- Hshape, map_map. reflexivity. }
-  unfold name_ok, model_nobs, accepted, resolves, cli_run. cbn [o_contains o_getitem o_parser o_ran].
+  eexists. split; [exact Hparser|].
+  intros n p Hpp. unfold preg_primary in Hpp. cbn [fst snd] in Hpp. unfold has_key in Hpp.
+  destruct (assoc n (map (fun x : ctx => (fst (fst x), snd x)) cs)) as [i|] eqn:Ek.
+  - apply assoc_In_keys in Ek. rewrite Hkeys in Ek. apply in_map_iff in Ek.
+    destruct Ek as [pa [E Hpa]]. apply Hcanon. apply in_all_names. exists pa. split; [exact Hpa | left; exact E].
+  - apply assoc_In in Hpp. apply all_pairs_in in Hpp. destruct Hpp as [als [Hpa Hn]].
+    apply Hcanon. apply in_all_names. exists (p, als). split; [exact Hpa | right; exact Hn].
+Qed.
+
+Theorem deep_names_agree c n :
+  deep_guard c = true -> n <> "" -> name_ok (c_auto_dash c) n (model_nobs c n) = true.
+Proof.
+  intros G Hn0. apply String.eqb_neq in Hn0. unfold deep_guard in G. rewrite !andb_true_iff in G.
+  destruct G as [[[[[[Hu Hwf] Hcan] Hat] Hnd] Hcd] Hnn].
+  apply nodupb_NoDup in Hnn. set (ad := c_auto_dash c) in *.
+  pose proof (task_names_tn ad c Hu Hcan (prims_nodup _ Hnn)) as Htn.
+  (* every flattened name is canonical and is looked up to the task of its entry *)
+  assert (forall m, In m (all_names (tn c)) -> canonical ad m = true) as Hcanon.
+  { intros m Hm. unfold canonical. pose proof (tn_nonempty_segs ad c Hu Hcan Hat m Hm) as Hs.
+    unfold nonempty_segs in Hs. rewrite Hs. cbn [andb].
+    apply normalized_iff_fixed. apply in_all_names in Hm. destruct Hm as [pa [Hpa Hm]].
+    destruct (tn_fixed ad c Hu Hcan pa Hpa) as [F1 F2]. destruct Hm as [<-|Hm]; [exact F1 | apply F2; exact Hm]. }
+  assert (forall pa, In pa (tn c) -> exists t, forall m, In m (fst pa :: snd pa) -> getitem c m = Ok t) as Hget.
+  { intros pa Hpa. destruct (entries_resolve ad c Hu Hwf Hcan Hat pa Hpa) as [t Ht]. exists t.
+    intros m Hm. apply (lookup_iff_reference c m t Hu Hwf Hcan Hcd).
+    - apply Hcanon. apply in_all_names. eauto.
+    - apply Ht; exact Hm. }
+  (* the parser registry *)
+  destruct (ctxs_of_shape c (tn c)) as [cs [Hcs Hshape]].
+  { intros pa Hpa. destruct (Hget pa Hpa) as [t Ht]. exists t. apply Ht. left; reflexivity. }
+  assert (parser_of c = Ok (map (fun x : ctx => (fst (fst x), snd x)) cs, all_pairs (tn c))) as Hparser.
+  { unfold parser_of, to_contexts. rewrite Htn, Hcs.
+    rewrite parser_init_ok; cbn [fst snd app].
+    - rewrite ctx_pairs_fst, Hshape. reflexivity.
+    - rewrite ctx_names_fst, Hshape. exact Hnn.
+    - intros x _. split; intros [].
+    - apply Forall_forall. intros x Hx.
+      assert (In (fst (fst x)) (all_names (tn c))) as Hin.
+      { apply in_all_names. exists (fst x). split; [rewrite <- Hshape; apply in_map; exact Hx | left; reflexivity]. }
+      apply (canonical_nonempty ad). apply Hcanon; exact Hin. }
+  assert (akeys (map (fun x : ctx => (fst (fst x), snd x)) cs) = map fst (tn c)) as Hkeys.
+  { unfold akeys. rewrite map_map. cbn [fst]. rewrite <- Hshape, map_map. reflexivity. }
+  unfold name_ok, model_nobs, accepted, resolves, cli_run. rewrite Hn0. unfold cli_token.
+  cbn [o_contains o_getitem o_parser o_ran].
   rewrite Hparser. unfold preg_primary. cbn [fst snd]. unfold has_key.
   destruct (assoc n (map (fun x : ctx => (fst (fst x), snd x)) cs)) as [i|] eqn:Ek.
   - (* a primary name *)
@@ -588,4 +635,22 @@ Proof.
       * apply assoc_none in Ek. apply Ek. rewrite Hkeys. rewrite <- Hin. apply in_map; exact Hpa.
       * apply assoc_none in Ea. apply Ea. unfold akeys. rewrite all_pairs_keys.
         apply in_flat_map. exists pa. split; assumption.
+Qed.
+
+(** the whole judgement of a token: names, per-task help, and the invocation
+    without any task *)
+Theorem deep_tokens_agree c n :
+  deep_guard c = true -> token_ok (c_auto_dash c) n (model_nobs c n) = true.
+Proof.
+  intros G. unfold token_ok. destruct (String.eqb n "") eqn:En.
+  - apply String.eqb_eq in En. subst n.
+    destruct (deep_parser c G) as [r [Hp Hc]].
+    apply default_invocation.
+    + unfold deep_guard in G. rewrite !andb_true_iff in G. destruct G as [[[[[[_ Hwf] _] _] _] _] _].
+      destruct c as [nm t a s d ad g]. rewrite ns_wf_unfold in Hwf. rewrite !andb_true_iff in Hwf.
+      cbn [c_config]. tauto.
+    + exists r. split; [exact Hp|]. destruct (preg_primary r "") as [p|] eqn:E; [|reflexivity].
+      specialize (Hc "" p E). destruct (c_auto_dash c); vm_compute in Hc; discriminate.
+  - apply String.eqb_neq in En. pose proof (deep_names_agree c n G En) as H.
+    rewrite H. apply help_from_names; assumption.
 Qed.
